@@ -54,7 +54,8 @@ type hwCaseC struct {
 	Body     string `json:"body"`
 	TName    bool   `json:"tname"`   // the gun's target is given by name (localhost:port)
 	Preload  *bool  `json:"preload"` // request-target cases: how the provider reads the file (absent: rotates with the case id)
-	Gun      string `json:"gun"`     // "" (http gun) | "connect"
+	Gun      string `json:"gun"`     // "" (http gun) | "connect" | "http2"
+	H2       *bool  `json:"h2"`      // the (TLS) target offers HTTP/2 next to HTTP/1.1 (absent: an HTTP/1.1-only target)
 	CSSL     bool   `json:"cssl"`    // connect gun: option connect-ssl
 	CStatus  int    `json:"cstatus"` // connect gun: what the proxy answers to CONNECT
 	MW       *struct {
@@ -82,6 +83,7 @@ type hwObs struct {
 	Host   string           `json:"host"`
 	Hdr    []targets.Header `json:"hdr"`
 	Body   string           `json:"body"`
+	Proto  string           `json:"proto"` // protocol version the request arrived in ("HTTP/1.1", "HTTP/2.0"; "" if none arrived)
 	SNI    string           `json:"sni"` // TLS server name of the connection, projected ("" none, TARGETHOST = the target's name)
 	// CONNECTs the proxy targets saw while the case ran
 	Connects []hwConnect `json:"connects"`
@@ -105,6 +107,7 @@ type hwOut struct {
 	Samples []hwSample      `json:"samples"`
 	Acq     int             `json:"acq"`  // ammo the provider handed out for this file
 	Err     string          `json:"err"`  // provider / decoding error text, "" if none
+	Panic   string          `json:"panic"` // what Shoot panicked with, "" if it returned
 	T0      int             `json:"t0"`   // clock (unix seconds) read before the ammo was acquired ...
 	T1      int             `json:"t1"`   // ... and after the shot returned
 	Answ    int             `json:"answ"` // records the gun's answer log gained during the case (0 without answlog)
@@ -121,6 +124,8 @@ type hwEnv struct {
 	tls        *targets.HTTPTarget
 	decoy      *targets.HTTPTarget
 	decoyTLS   *targets.HTTPTarget
+	h2         *targets.HTTPTarget // TLS target offering h2 and http/1.1
+	h2on       bool                // the case being observed runs against the h2-capable target
 	log        *zap.Logger
 	fs         afero.Fs
 	guns       map[string]core.Gun
@@ -140,7 +145,8 @@ func hwNewEnv() *hwEnv {
 	e.tls = targets.NewHTTP("target", true, rec)
 	e.decoy = targets.NewHTTP("decoy", false, rec)
 	e.decoyTLS = targets.NewHTTP("decoy", true, rec)
-	for _, t := range []*targets.HTTPTarget{e.plain, e.tls, e.decoy, e.decoyTLS} {
+	e.h2 = targets.NewHTTP2("target", rec)
+	for _, t := range []*targets.HTTPTarget{e.plain, e.tls, e.decoy, e.decoyTLS, e.h2} {
 		if !targets.IsLoopback(t.Addr()) {
 			panic("target not on loopback: " + t.Addr())
 		}
@@ -186,12 +192,16 @@ func (e *hwEnv) close() {
 		p.Close()
 	}
 	e.plain.Close()
+	e.h2.Close()
 	e.tls.Close()
 	e.decoy.Close()
 	e.decoyTLS.Close()
 }
 
 func (e *hwEnv) target(ssl bool) *targets.HTTPTarget {
+	if ssl && e.h2on {
+		return e.h2
+	}
 	if ssl {
 		return e.tls
 	}
@@ -397,7 +407,15 @@ func (e *hwEnv) runCase(cs hwCase) hwOut {
 	}
 	var g core.Gun
 	gunTarget := ""
-	if c.Gun == "connect" {
+	e.h2on = c.H2 != nil && *c.H2
+	if c.Gun == "http2" {
+		// the http2 gun against the target of the case (h2-capable or HTTP/1.1 only); it has no `ssl: false`
+		g, err = e.gun(true, c.Compress, map[string]interface{}{"type": "http2"}, fmt.Sprintf("http2/%v", e.h2on), yamlShape)
+		out.Via += " gun=http2"
+	} else if e.h2on {
+		g, err = e.gun(c.SSL, c.Compress, nil, "h2target", yamlShape)
+		out.Via += " target-offers-h2"
+	} else if c.Gun == "connect" {
 		// the connect gun's target is the proxy; the tunnel leads to the recording target of the case's scheme
 		px := e.proxy(c.CSSL, c.SSL, c.CStatus)
 		gunTarget = px.Addr()
@@ -447,7 +465,7 @@ func (e *hwEnv) runCase(cs hwCase) hwOut {
 		func() {
 			defer func() { // "a failed sample, not a crash"
 				if r := recover(); r != nil {
-					out.Err = fmt.Sprintf("gun panicked: %v", r)
+					out.Panic = fmt.Sprintf("%v", r)
 				}
 			}()
 			g.Shoot(a)
@@ -502,6 +520,7 @@ func (e *hwEnv) observe(out *hwOut, ssl bool) {
 			out.Obs.SNI = e.projectHost(ev.SNI, ssl)
 		}
 		out.Obs.Body = ev.Body
+		out.Obs.Proto = ev.Proto
 		out.Obs.Hdr = ev.Hdr
 		if out.Obs.Hdr == nil {
 			out.Obs.Hdr = []targets.Header{}
@@ -611,6 +630,7 @@ func (e *hwEnv) runReuse(cs hwCase) []hwOut {
 	if err := json.Unmarshal(cs.C, &c); err != nil {
 		panic(err)
 	}
+	e.h2on = false
 	yamlShape := cs.ID%2 == 1
 	via := fmt.Sprintf("%s instances=%d rounds=%d acquire-all-then-shoot-all", map[bool]string{false: "viper-map", true: "yaml-map"}[yamlShape], c.N, c.Rounds)
 	typ, file := e.hwRenderFile(&c)
@@ -704,6 +724,7 @@ func (e *hwEnv) runReuse(cs hwCase) []hwOut {
 		o.Obs.Host = e.projectHost(ev.Host, c.SSL)
 		o.Obs.SNI = ev.SNI
 		o.Obs.Body = ev.Body
+		o.Obs.Proto = ev.Proto
 		if ev.Hdr != nil {
 			o.Obs.Hdr = ev.Hdr
 		}
@@ -735,6 +756,7 @@ func (e *hwEnv) runFile(cs hwCase) []hwOut {
 	if err := json.Unmarshal(cs.C, &c); err != nil {
 		panic(err)
 	}
+	e.h2on = false
 	yamlShape := cs.ID%2 == 1
 	via := map[bool]string{false: "viper-map", true: "yaml-map"}[yamlShape]
 	typ, file := e.hwRenderFile(&c)
